@@ -30,10 +30,16 @@ theorem quoted_no_panic : ∀ s : Str, quotedPanics s = false := by
   intro c _ hc
   rw [escArm_of_cut c hc]; rfl
 
-/-- the char-wise definition the theorems use is what the source's control flow (search cut,
-write prefix, write arm, recurse on the rest) computes -/
-theorem quoted_rs_eq : ∀ s : Str, quotedStringRs (s.length + 1) s = some (quotedString s) :=
-  fun s => quotedStringRs_eq _ s (Nat.lt_succ_self _)
+/-- the char-wise definition the theorems use is what the source's `loop` computes, effect by
+effect (prefix, then escape arm, then end test, then advance): in particular an escapable
+character that is the last byte of the text is escaped, not dropped -/
+theorem quoted_rs_eq : ∀ s : Str, quotedStringRs s = some (quotedString s) := by
+  intro s
+  simpa [quotedStringRs] using quotedLoop_eq (s.length + 1) [] s (Nat.lt_succ_self _)
+
+/-- the loop invariant itself: whatever was already written stays, the rest is appended -/
+theorem quoted_loop_inv (w s : Str) : quotedLoop (s.length + 1) w s = some (w ++ quotedString s) :=
+  quotedLoop_eq _ w s (Nat.lt_succ_self _)
 
 /-- a text in which `"`, LF, CR never occur raw and every `\` starts an ECHAR -/
 def cleanAux : Bool → Str → Bool
@@ -225,6 +231,9 @@ example : quadAll termValid sampleQuad = true ∧ quadAll termBcp sampleQuad = t
 example : readDoc true (writeDoc [sampleQuad, sampleQuad]) = some [sampleQuad, sampleQuad] :=
   read_write_doc _ (by intro q h; simp at h; subst h; decide)
 example : unescape (quotedString "a\"b\\c\nd\r".toList) = some "a\"b\\c\nd\r".toList := unescape_quoted _
+-- a text ending in each escapable character keeps it (the end test comes after the escape arm)
+example : quotedStringRs "a\n".toList = some "a\\n".toList ∧ quotedStringRs "\r".toList = some "\\r".toList ∧
+    quotedStringRs "\"".toList = some "\\\"".toList ∧ quotedStringRs "x\\".toList = some "x\\\\".toList := by decide
 example : delim ".\n".toList = true ∧ delim " <g>.".toList = true ∧ delim ">> .".toList = true := by decide
 -- the reader is not the trivial one: it rejects what the grammar rejects
 example : unescape "a\"b".toList = none := by decide
